@@ -74,6 +74,10 @@ TEXT = {
          "connected-subset detection modelled and compared exactly; self-intersection, inside test and outward re-orientation by the permutation/flip/derived-mesh oracle on the real class",
          "float geometry (ray tests, absolute tolerances) is outside the combinatorial model",
          "Lean 4 theorems over face-index lists (List.Perm/count) + exact correspondence of the combinatorial functions + mesh oracle"),
+ "C19": ("proof (partial): placement maps a model vertex v to (R v scale + p) f, is inverted by the inverse pose and preserves extents; every SI prefix of the regenerated unit table has factor 10^-power; "
+         "model generators, trace merging, backends and non-mutation by the display oracle mapping plotly traces back through the pose",
+         "only the plotly backend and five classes are mapped back; backends are outside the model",
+         "Lean 4 theorems over a group action on a module + decide over the generated unit table + figure-trace oracle"),
 }
 props = [json.loads(l) for l in open("properties.jsonl")]
 checks = []
